@@ -324,6 +324,11 @@ func (q *TaskQueue) addAfter(id string, newTask task.Task) {
 		}
 	}
 
+	if !idFound {
+		// no task with such id: keep the queue as is
+		return
+	}
+
 	q.items = newItems
 }
 
@@ -356,6 +361,11 @@ func (q *TaskQueue) addBefore(id string, newTask task.Task) {
 			// when id is found, copy other taskы to i+1 position
 			newItems[i+1] = t
 		}
+	}
+
+	if !idFound {
+		// no task with such id: keep the queue as is
+		return
 	}
 
 	q.items = newItems
